@@ -273,4 +273,167 @@ theorem setLoop_separateM (nm : Names) : ∀ (n : Nat) (args : List Str) (p : Bo
             simp only [longContM]
             rw [ihr rest _ (Nat.le_refl _)]
 
+/-! ## the shell's command line -/
+def stateAfterShortSh (nm : Names) (negate : Bool) (next : Option Str) (p : Bool) (cs : Str) : Bool :=
+  match shShortLoop nm negate next p cs with
+  | .ok ((_, _, p'), _) => p'
+  | .error _ => p
+
+/-- the separated spelling of the shell's command line, following the `portable` state as the code does (long options
+    are never rewritten there: `separateSO false`) -/
+def separateMsh (nm : Names) : Bool → List Str → List Str
+  | _, [] => []
+  | p, a :: rest =>
+    match shortSign a with
+    | some negate =>
+      let cs := a.drop 1
+      let (parts, pending) :=
+        if cs.contains (signChar negate) then ([a], (splitClusterM (!p) (signChar negate) cs).2)
+        else splitClusterM (!p) (signChar negate) cs
+      let p' := stateAfterShortSh nm negate rest.head? p cs
+      if pending then
+        match rest with
+        | [] => parts
+        | x :: rest' => parts ++ x :: separateMsh nm p' rest'
+      else parts ++ separateMsh nm p' rest
+    | none => a :: rest
+
+theorem shLoop_partsM (nm : Names) (neg : Bool) (p : Bool) : ∀ (cs : Str) (r : Run) (tail : List Str), signChar neg ∉ cs →
+    shLoop nm p r ((splitClusterM (!p) (signChar neg) cs).1 ++ tail) =
+      contH nm (shShortLoop nm neg tail.head? p cs) r tail := by
+  intro cs
+  induction cs with
+  | nil => intro r tail _; simp [splitClusterM, shShortLoop, contH, pushOptions_nil]
+  | cons c rest ih =>
+    intro r tail hd
+    have hc : c ≠ signChar neg := fun h => hd (by simp [h])
+    have hrest : signChar neg ∉ rest := fun h => hd (by simp [h])
+    rw [splitClusterM_cons]
+    by_cases ho : c = 'o'
+    · subst ho
+      simp only [if_true]
+      cases rest with
+      | nil =>
+        simp only [List.isEmpty_nil, if_true, List.singleton_append]
+        rw [shLoop_short nm p r _ tail neg (shortSign_single neg 'o' [] hc)]
+        rfl
+      | cons r0 rest' =>
+        cases p with
+        | false =>
+          simp only [List.isEmpty_cons, Bool.false_eq_true, if_false, Bool.not_false, if_true, List.cons_append, List.nil_append]
+          rw [shLoop_short nm false r _ _ neg (shortSign_single neg 'o' [] hc)]
+          simp only [List.drop_succ_cons, List.drop_zero, List.head?_cons]
+          rw [shShortLoop_cons, shShortLoop_cons]
+          have hv : ('o' : Char) ≠ 'V' := by decide
+          simp only [hv, if_false, if_true]
+          exact shOArm_attached_eq_next nm neg (r0 :: rest') tail.head? (by simp) r tail
+        | true =>
+          simp only [List.isEmpty_cons, Bool.false_eq_true, if_false, Bool.not_true, List.singleton_append]
+          rw [shLoop_short nm true r _ tail neg (shortSign_single neg 'o' (r0 :: rest') hc)]
+          rfl
+    · simp only [ho, if_false, List.cons_append]
+      rw [shLoop_short nm p r _ _ neg (shortSign_single neg c [] hc)]
+      simp only [List.drop_succ_cons, List.drop_zero]
+      rw [shShortLoop_cons, shShortLoop_cons]
+      by_cases hv : c = 'V'
+      · subst hv
+        simp only [if_true]
+        cases neg <;> cases p <;> simp [contH]
+      · simp only [hv, ho, if_false]
+        rw [contH_thenConsV, contH_thenConsV]
+        cases shLetter nm neg p c with
+        | error e => rfl
+        | ok o =>
+          simp only [shShortLoop, contH, Bool.false_eq_true, if_false, pushOptions_nil]
+          rw [ih (pushOptions [o] r) tail hrest]
+          rfl
+
+theorem shLoop_separateM (nm : Names) : ∀ (n : Nat) (args : List Str) (p : Bool) (r : Run), args.length ≤ n →
+    shLoop nm p r (separateMsh nm p args) = shLoop nm p r args := by
+  intro n
+  induction n with
+  | zero =>
+    intro args p r hl
+    have : args = [] := List.eq_nil_of_length_eq_zero (Nat.le_zero.mp hl)
+    subst this; rfl
+  | succ n ih =>
+    intro args p r hl
+    cases args with
+    | nil => rfl
+    | cons a rest =>
+      have ihr : ∀ (l : List Str) (q : Bool) (r : Run), l.length ≤ rest.length →
+          shLoop nm q r (separateMsh nm q l) = shLoop nm q r l :=
+        fun l q r hl' => ih l q r (by simp at hl; omega)
+      unfold separateMsh
+      cases hs : shortSign a with
+      | none => simp
+      | some neg =>
+        simp only []
+        obtain ⟨c, cs, rfl, hc⟩ := shortSign_cases a neg hs
+        simp only [List.drop_succ_cons, List.drop_zero]
+        have key : ∀ (r : Run) (tail : List Str),
+            shLoop nm p r ((if (c :: cs).contains (signChar neg) then
+                ([signChar neg :: c :: cs], (splitClusterM (!p) (signChar neg) (c :: cs)).2)
+              else splitClusterM (!p) (signChar neg) (c :: cs)).1 ++ tail) =
+              contH nm (shShortLoop nm neg tail.head? p (c :: cs)) r tail := by
+          intro r tail
+          by_cases hk : (c :: cs).contains (signChar neg) = true
+          · simp only [hk, if_true, List.singleton_append]
+            rw [shLoop_short nm p r _ tail neg hs]; rfl
+          · simp only [hk]
+            exact shLoop_partsM nm neg p (c :: cs) r tail (by simpa using hk)
+        have hpend : (if (c :: cs).contains (signChar neg) then
+                ([signChar neg :: c :: cs], (splitClusterM (!p) (signChar neg) (c :: cs)).2)
+              else splitClusterM (!p) (signChar neg) (c :: cs)).2 = (splitCluster (signChar neg) (c :: cs)).2 := by
+          split <;> simp [splitClusterM_pending]
+        rw [shLoop_short nm p r _ rest neg hs]
+        simp only [List.drop_succ_cons, List.drop_zero]
+        generalize hX : (if (c :: cs).contains (signChar neg) then
+                ([signChar neg :: c :: cs], (splitClusterM (!p) (signChar neg) (c :: cs)).2)
+              else splitClusterM (!p) (signChar neg) (c :: cs)) = X at key hpend
+        obtain ⟨parts, pending⟩ := X
+        simp only at key hpend
+        subst hpend
+        cases hp : (splitCluster (signChar neg) (c :: cs)).2 with
+        | true =>
+          simp only [if_true]
+          cases rest with
+          | nil =>
+            have := key r []
+            simp only [List.append_nil] at this
+            rw [this]
+          | cons x rest' =>
+            simp only []
+            rw [key r (x :: separateMsh nm _ rest')]
+            simp only [List.head?_cons, stateAfterShortSh]
+            cases hx : shShortLoop nm neg (some x) p (c :: cs) with
+            | error e => rfl
+            | ok q =>
+              obtain ⟨⟨os, took, p'⟩, v⟩ := q
+              rcases shShort_pending nm neg (signChar neg) x p (c :: cs) hp os took p' v hx with hv | ht
+              · subst hv; simp [contH]
+              · subst ht
+                cases v with
+                | true => simp [contH]
+                | false =>
+                  simp only [contH, Bool.false_eq_true, if_false, if_true, List.tail_cons]
+                  rw [ihr rest' _ _ (by simp)]
+        | false =>
+          simp only [Bool.false_eq_true, if_false]
+          rw [key r (separateMsh nm _ rest)]
+          obtain ⟨he, ht⟩ := shShort_not_pending nm neg (signChar neg) (separateMsh nm (stateAfterShortSh nm neg rest.head? p (c :: cs)) rest).head? rest.head? p (c :: cs) hp
+          rw [he]
+          simp only [stateAfterShortSh]
+          cases hx : shShortLoop nm neg rest.head? p (c :: cs) with
+          | error e => rfl
+          | ok q =>
+            obtain ⟨⟨os, took, p'⟩, v⟩ := q
+            have ht' := (shShort_not_pending nm neg (signChar neg) rest.head? rest.head? p (c :: cs) hp).2 os took p' v hx
+            subst ht'
+            cases v with
+            | true => simp [contH]
+            | false =>
+              simp only [contH, Bool.false_eq_true, if_false]
+              rw [ihr rest _ _ (Nat.le_refl _)]
+
 end YashModel.Args.Bespoke
